@@ -101,23 +101,35 @@ pub fn check(c: &Case, stats: &mut Stats) -> CheckResult {
         }
     }
     stats.count("extensions", suffixes.len() as u64);
-    // ---- unsupported versions
-    if v >= 2 {
-        for ver in 0..=255u8 {
-            if ver == 2 || ver == 3 {
-                continue;
-            }
-            let mut b = bytes.clone();
-            b[3] = ver;
-            stats.eval(1);
-            match decode(&b) {
-                Decoded::Err(_) => {}
-                Decoded::Ok(_) => return fail("unsupported-version-accepted", format!("file announcing version {ver} is accepted")),
-                Decoded::Panic(p) => return fail("unsupported-version-panics", format!("file announcing version {ver} panics instead of returning an error: {p}")),
-            }
+    // ---- unsupported versions: the HPO magic followed by any version byte other
+    //      than 2 and 3, in front of every payload layout (the file's own
+    //      sections with and without a release-version field)
+    let body: &[u8] = if v >= 2 { &bytes[8..] } else { &bytes[..] };
+    let mut candidates: Vec<Vec<u8>> = Vec::new();
+    for ver in 0..=255u8 {
+        if ver == 2 || ver == 3 {
+            continue;
         }
-        stats.count("version-bytes", 254);
+        let mut with_date = vec![b'H', b'P', b'O', ver];
+        with_date.extend_from_slice(&c.facts.version.0.to_be_bytes());
+        with_date.push(c.facts.version.1);
+        with_date.push(c.facts.version.2);
+        with_date.extend_from_slice(body);
+        let mut without_date = vec![b'H', b'P', b'O', ver];
+        without_date.extend_from_slice(body);
+        candidates.push(with_date);
+        candidates.push(without_date);
     }
+    for b in &candidates {
+        stats.eval(1);
+        let ver = b[3];
+        match decode(b) {
+            Decoded::Err(_) => {}
+            Decoded::Ok(_) => return fail("unsupported-version-accepted", format!("a file announcing version {ver} (payload laid out as v{v}{}) is accepted", if b.len() == body.len() + 4 { ", no release-version field" } else { "" })),
+            Decoded::Panic(p) => return fail("unsupported-version-panics", format!("file announcing version {ver} panics instead of returning an error: {p}")),
+        }
+    }
+    stats.count("version-bytes", candidates.len() as u64);
     stats.label(match v {
         1 => "v1",
         2 => "v2",
@@ -171,7 +183,7 @@ impl Property for C08 {
         "fault_enumeration"
     }
     fn rule(&self) -> String {
-        "Generated: facts restricted to what format version v in {1,2,3} can express, encoded by an independent encoder written from the documented layout (not as_bytes), records in generated order inside each section. Oracle A: from_bytes(file) is Ok and its complete read-API snapshot equals the reference model of the facts (v1: version 0000-00-00, no flags/replacements/ORPHA; v2: no ORPHA). Oracle B (fault enumeration per file): EVERY truncation offset 0..len-1 is decoded and must be rejected (Err or panic, never Ok); 8 extensions (bytes 00/01/ff, an empty section, two empty sections, a copy of the last section, a well-formed one-record disease section, 1-16 generated bytes) must be rejected; with the HPO magic every version byte other than 2 and 3 must give Err (not a panic). evaluations = decodes. Non-trivial = file with >=1 record in every annotation section it has and >=1 parent link; distinct = hash(canonical facts, version).".into()
+        "Generated: facts restricted to what format version v in {1,2,3} can express, encoded by an independent encoder written from the documented layout (not as_bytes), records in generated order inside each section. Oracle A: from_bytes(file) is Ok and its complete read-API snapshot equals the reference model of the facts (v1: version 0000-00-00, no flags/replacements/ORPHA; v2: no ORPHA). Oracle B (fault enumeration per file): EVERY truncation offset 0..len-1 is decoded and must be rejected (Err or panic, never Ok); 8 extensions (bytes 00/01/ff, an empty section, two empty sections, a copy of the last section, a well-formed one-record disease section, 1-16 generated bytes) must be rejected; with the HPO magic every version byte other than 2 and 3, in front of the file's sections with and without a release-version field (508 variants per file), must give Err (not a panic, not an ontology). evaluations = decodes. Non-trivial = file with >=1 record in every annotation section it has and >=1 parent link; distinct = hash(canonical facts, version).".into()
     }
     fn assumptions(&self) -> Vec<String> {
         vec![
